@@ -32,8 +32,8 @@ from xdsl.transforms.canonicalization_patterns.utils import const_evaluate_opera
 #    for i in range(x, N, K):
 #      f(A[i])
 #
-#    factor = (iu - il) // is
-#    for o in range(ol, ou * factor, os):
+#    factor = ceildiv(iu - il, is)  # inner trip count
+#    for o in range(ol, ou * factor, os):  # if ol == 0 and os divides ou
 #      # o is not used
 #
 
@@ -120,7 +120,18 @@ class FlattenNestedLoopsPattern(RewritePattern):
                 # Do not currently handle lb != 0
                 return
 
-            factor = (inner_ub - inner_lb) // inner_step
+            if inner_step <= 0 or outer_step <= 0:
+                return
+
+            if outer_step != 1:
+                # The outer loop runs ceil(ub / step) times, which can only be expressed
+                # as a scaled upper bound when the step evenly divides a constant ub.
+                outer_ub = const_evaluate_operand(op.ub)
+                if outer_ub is None or outer_ub % outer_step:
+                    return
+
+            # The trip count of the inner loop, not the floored quotient of its range
+            factor = max(0, -((inner_lb - inner_ub) // inner_step))
             factor_op = arith.ConstantOp(
                 builtin.IntegerAttr(factor, builtin.IndexType())
             )
